@@ -2,7 +2,11 @@ package main
 
 import (
 	"fmt"
+	"os"
+	"os/exec"
+	"path/filepath"
 	"runtime"
+	"strings"
 	"sync"
 
 	"github.com/pion/stun/v3"
@@ -13,6 +17,7 @@ import (
 // class bytes (sampled) to pin the masking.
 func init() {
 	props["C19"] = runC19
+	props["C19cold"] = runC19Cold
 	cmds[1901] = func(_ *out, f [][]int) []int {
 		return []int{int(stun.MessageType{Method: stun.Method(f[0][0]), Class: stun.MessageClass(f[0][1])}.Value())}
 	}
@@ -39,6 +44,57 @@ func init() {
 		}
 		return obs
 	}
+}
+
+// runC19Cold: in a process that has not touched the type codec yet, the first thing done is the operation
+// named by the argument; then both tables are printed as digests
+func runC19Cold(_ *out, _ bool, _ *rng, args []string) map[string]interface{} {
+	switch args[0] {
+	case "read-first":
+		var t stun.MessageType
+		t.ReadValue(0x0111)
+	case "decode-first":
+		_ = stun.Decode(header(0x0113, 0, tid0), new(stun.Message))
+	case "value-first":
+		_ = stun.MessageType{Method: 0x123, Class: 2}.Value()
+	case "concurrent-read-first":
+		var wg sync.WaitGroup
+		for w := 0; w < 4*runtime.GOMAXPROCS(0); w++ {
+			wg.Add(1)
+			go func(w int) {
+				defer wg.Done()
+				for v := 0; v < 65536; v += 17 {
+					var t stun.MessageType
+					t.ReadValue(uint16(v + w))
+				}
+			}(w)
+		}
+		wg.Wait()
+	}
+	fmt.Println("tables", c19Digest())
+	os.Exit(0)
+	return nil
+}
+
+// c19Digest: FNV-1a over ReadValue of all 65536 wire values and Value of all 16384 pairs
+func c19Digest() uint64 {
+	h := uint64(14695981039346656037)
+	mix := func(x int) {
+		for k := 0; k < 2; k++ {
+			h ^= uint64(byte(x >> (8 * k)))
+			h *= 1099511628211
+		}
+	}
+	for v := 0; v < 65536; v++ {
+		var t stun.MessageType
+		t.ReadValue(uint16(v))
+		mix(int(t.Method))
+		mix(int(t.Class))
+	}
+	for k := 0; k < 16384; k++ {
+		mix(int(stun.MessageType{Method: stun.Method(k / 4), Class: stun.MessageClass(k % 4)}.Value()))
+	}
+	return h
 }
 
 func runC19(o *out, thorough bool, r *rng, _ []string) map[string]interface{} {
@@ -112,6 +168,19 @@ func runC19(o *out, thorough bool, r *rng, _ []string) map[string]interface{} {
 		}
 	}
 	o.countN("reordered_value_calls", 90000)
+	// fresh processes whose FIRST use of the type codec is a ReadValue, a Decode, a Value, or ReadValue from many
+	// goroutines at once: the tables they then compute are the ones computed here
+	want := fmt.Sprint("tables ", c19Digest())
+	for _, first := range []string{"read-first", "decode-first", "value-first", "concurrent-read-first"} {
+		outp, err := exec.Command(os.Args[0], "C19cold", "quick", "0", filepath.Join(o.dir, "c19cold"), first).CombinedOutput()
+		if got := strings.TrimSpace(string(outp)); err != nil || got != want {
+			if len(got) > 300 {
+				got = got[:300]
+			}
+			o.fail("depends-on-first-use", fmt.Sprintf("x a fresh process whose first use of the type codec is %s computes other tables than this one (%v): %s", first, err, got))
+		}
+		o.count("cold-process-runs")
+	}
 	// a receiver that is reused (as Decode does with m.Type): ReadValue overwrites it completely
 	var reused stun.MessageType
 	m := new(stun.Message)
